@@ -85,10 +85,20 @@ func GetExtendedSpatialIdsWithinRadiusOfLine(startPoint *object.Point, endPoint 
 	// create megaboxIds
 
 	// Determine the number of layers around the spatialID to search.
-	// All SpatialIds are virtually the same size, so use the first to measure
-	hLayers, vLayers, error := FitClearanceAroundExtendedSpatialID(idsOnLine[0], radius)
-	if error != nil {
-		return nil, error
+	// idsOnLine has no fixed order and its voxels do not all need the same number of
+	// layers, so measure every voxel on the line and use the largest layer counts.
+	var hLayers, vLayers int64
+	for _, idOnLine := range idsOnLine {
+		h, v, error := FitClearanceAroundExtendedSpatialID(idOnLine, radius)
+		if error != nil {
+			return nil, error
+		}
+		if h > hLayers {
+			hLayers = h
+		}
+		if v > vLayers {
+			vLayers = v
+		}
 	}
 
 	// Return the SpatialIDs within the box created by hLayers and vLayers
